@@ -339,7 +339,7 @@ def run(facts, res):
         if b is None:
             continue
         for fl in iters.find_flows(facts):
-            if fl.body is not b or fl.consumer not in ("next", "for_each", "try_for_each", "try_fold", "fold") or not fl.listing:
+            if fl.body is not b or fl.consumer not in ("next", "for_each", "try_for_each", "try_fold", "fold", "extend") or not fl.listing:
                 continue        # a `for` loop or a pipeline ending in for_each over the listing
             n6b += 1
             from ..conds import unaccepted
@@ -522,7 +522,7 @@ def check_content_unwraps(facts, res, cg):
                                           "naming the index 4294967295 aborts the calling thread (debug) or wraps (release) instead of being rejected" % (
                                               m.path, st.rv.j["op"].replace("WithOverflow", "")), m.loc(st.line))
     res.instance("H8", "%d overflow-checked arithmetic sites on the reload / refresh paths inspected" % n8, None)
-    res.floor("H8", "overflow-checked arithmetic sites inspected", n8, 3)
+    res.floor("H8", "overflow-checked arithmetic sites inspected", n8, 1)
 
     # ------------------------------------------------------------------ H9 a failed object load is never absorbed by the reader
     # The verdict of the digest checks reaches the caller: in `read` (closures and private helpers included) the Result of every call
